@@ -90,7 +90,8 @@ type Path struct {
 	pinMemoGen int
 	fnStack    []*ssa.Function
 	intMode    bool
-	knownHit   []*smt.Term // predicates of known-finding regions in which an assertion failed
+	wgCount    map[*Value]int // sync.WaitGroup counters (sequential model)
+	knownHit   []*smt.Term    // predicates of known-finding regions in which an assertion failed
 	chanSlack  int
 	exitCode   int
 	lazyGo     bool
